@@ -18,6 +18,9 @@ CHECKS = {
     'C08': dict(category='model_checking', engine='Linker', technique='TLA+ Linker.tla: TLC exhaustive over submodel counts x ordered selections x options x per-iteration outcome sequences; behaviours replayed on a real BaseLinker with scripted submodels, single-submodel linkers compared with the bare model',
                 text='Linker.tla models construction and one BaseLinker.solve_t call step by step (validation, offset seeding, pre-hook, submodel passes in selection order, post-hook, judge, stamping); TLC checks order, convergence (first iteration at which every check variable moved < tol), stamping, unselected-untouched, unknown ids, span mismatch, offset and lag/lead maxima on every behaviour in the bound; each behaviour is replayed on the real linker through solve_t and solve under two value scalings, and single-submodel linkers are compared with solving the model directly.',
                 note='Trusted: TLC; scripted submodels; finite data only; MaxN<=3 submodels, MaxI<=3 iterations exhaustively.', ref='6.3, 7 (C08)'),
+    'C17': dict(category='model_checking', engine='Tracer', technique='TLA+ Tracer.tla (Solver.tla + TracerMixin appends): TLC exhaustive incl. refinement of Solver; behaviours replayed on traced and untraced twins, Trace compared with the spec segment',
+                text='Tracer.tla conjoins every Solver.tla action with the append the mixin performs; TLC checks that every traced behaviour projects to a Solver behaviour (non-interference at design level), that nothing is written with tracing off and that the segment has the documented shape with snapshot j = cells after pass j; each behaviour is run on a TracerMixin model and an untraced twin through all three entry points and three trace argument forms, comparing twins, spec and the recorded Trace, including repeated solves.',
+                note='Trusted: as C02; snapshot comparison is on check variables, other traced names by presence/shape.', ref='6.6, 7 (C17)'),
 }
 
 NOT_YET = {}
